@@ -92,3 +92,28 @@ func VPH_humanMonotone() {
 	vp_Assert(vp_ZLe(vp_TokScaled(num1), vp_TokScaled(num2)), "n1 < n2 => numeral(n1) <= numeral(n2) within a class")
 	vp_Reach("same-class")
 }
+
+
+// VPH_formatOverflow (C05): a saturated counter is rendered as the infinity
+// sign, anything else as a numeral.
+func VPH_formatOverflow() {
+	h := vpHumaner()
+	var numeral, unit string
+	var saturated bool
+	if vp_Choice("width", 2) == 0 {
+		c := Count32(vp_U32("c32"))
+		saturated = uint64(c) == 1<<32-1
+		numeral, unit = h.Format(c, "B")
+	} else {
+		c := Count64(vp_U64("c64"))
+		saturated = uint64(c) == 1<<64-1
+		numeral, unit = h.Format(c, "B")
+	}
+	if vp_IsTok(numeral) {
+		vp_Assert(!saturated, "a numeral is printed only for unsaturated values")
+		vp_Reach("numeral")
+	} else {
+		vp_Assert(saturated && numeral == "\u221e" && unit == "B", "saturated: infinity sign")
+		vp_Reach("infinity")
+	}
+}
